@@ -30,6 +30,10 @@ of a post-condition (DESIGN.md 4/C16):
   G7  construct_mesh: per-direction routing of centre, sea surface,
       properties and results
   G8  good_mg_cell_nr / vector cut / centre part
+  G9  the survey domain: given > distance > vector, distance sign-agnostic
+      (evaluated symbolically over 2-vectors); estimate_gridding_opts takes
+      every receiver position for EVERY source (relative receivers), all
+      source centres, and widens by 10 %
 """
 import ast
 import itertools
@@ -1090,6 +1094,270 @@ def rule_numbers(ctx, mod):
               'inside the domain are dropped', ctx.where(mod, ow))
 
 
+# --------------------------------------------------------------------------
+# G9: the survey domain itself (origin_and_widths and estimate_gridding_opts)
+# --------------------------------------------------------------------------
+class _NoVec(Exception):
+    pass
+
+
+def _vec(node, env):
+    """Evaluate an expression to a sympy scalar or a list of two scalars
+    (numpy broadcasting of + - * / abs over lists built by np.array / lists
+    / np.r_); names come from env."""
+    def bc(a, b, f):
+        if isinstance(a, list) and isinstance(b, list):
+            if len(a) != len(b):
+                raise _NoVec('shapes')
+            return [f(x, y) for x, y in zip(a, b)]
+        if isinstance(a, list):
+            return [f(x, b) for x in a]
+        if isinstance(b, list):
+            return [f(a, y) for y in b]
+        return f(a, b)
+    if isinstance(node, ast.Constant) and isinstance(
+            node.value, (int, float)) and not isinstance(node.value, bool):
+        return sp.nsimplify(node.value)
+    if isinstance(node, ast.Name):
+        if node.id in env:
+            return env[node.id]
+        raise _NoVec(node.id)
+    if isinstance(node, (ast.List, ast.Tuple)):
+        out = [_vec(e, env) for e in node.elts]
+        if any(isinstance(o, list) for o in out):
+            raise _NoVec('nested')
+        return out
+    if isinstance(node, ast.UnaryOp) and isinstance(
+            node.op, (ast.USub, ast.UAdd)):
+        v = _vec(node.operand, env)
+        if isinstance(node.op, ast.UAdd):
+            return v
+        return [-x for x in v] if isinstance(v, list) else -v
+    if isinstance(node, ast.BinOp):
+        ops = {ast.Add: lambda x, y: x + y, ast.Sub: lambda x, y: x - y,
+               ast.Mult: lambda x, y: x * y, ast.Div: lambda x, y: x / y}
+        if type(node.op) not in ops:
+            raise _NoVec('op')
+        return bc(_vec(node.left, env), _vec(node.right, env),
+                  ops[type(node.op)])
+    if isinstance(node, ast.Subscript):
+        v = _vec(node.value, env)
+        sl = node.slice
+        if isinstance(sl, ast.UnaryOp) and isinstance(sl.op, ast.USub) and \
+                isinstance(sl.operand, ast.Constant):
+            idx = -sl.operand.value
+        elif isinstance(sl, ast.Constant) and isinstance(sl.value, int):
+            idx = sl.value
+        else:
+            raise _NoVec('slice')
+        if not isinstance(v, list) or not -len(v) <= idx < len(v):
+            raise _NoVec('index')
+        return v[idx]
+    if isinstance(node, ast.Call):
+        f = ast.unparse(node.func)
+        a = [_vec(x, env) for x in node.args]
+        if f in ('abs', 'np.abs', 'np.absolute', 'np.fabs') and len(a) == 1:
+            return [sp.Abs(x) for x in a[0]] if isinstance(a[0], list) \
+                else sp.Abs(a[0])
+        if f in ('np.array', 'np.asarray', 'np.atleast_1d', 'float',
+                 'np.float64', 'list', 'tuple', 'np.asarray_chkfinite') \
+                and len(a) == 1:
+            return a[0]
+        if f == 'np.r_':
+            raise _NoVec('call')
+        if f in ('np.negative',) and len(a) == 1:
+            return [-x for x in a[0]] if isinstance(a[0], list) else -a[0]
+        raise _NoVec(f)
+    if isinstance(node, ast.Subscript) or isinstance(node, ast.Attribute):
+        raise _NoVec('attr')
+    raise _NoVec(type(node).__name__)
+
+
+def rule_survey_domain(ctx, mod, fn, D):
+    """The survey domain of one direction: given > distance > vector, and the
+    distance form is sign-agnostic [centre - |d0|, centre + |d1|]."""
+    where = ctx.where(mod, fn)
+    ps = au.all_params(fn)
+    dp = find("_x_ = kwargs.pop('distance', None)", fn)
+    ctx.anchor(len(dp) == 1 and 'vector' in ps and D in ps,
+               'origin_and_widths(domain, distance, vector)')
+    DI = dp[0][1]['_x_']
+    cen = au.params(fn)[2]
+    arms = {}
+    for n in au.walk_local(fn):
+        if isinstance(n, ast.Assign) and len(n.targets) == 1 and \
+                ast.unparse(n.targets[0]) == D:
+            g = au.guard_texts(n, fn)
+            pos = [x for x in g if x.endswith('isnotNone')]
+            if pos and pos[-1] == f'{DI}isnotNone':
+                arms.setdefault('distance', []).append((n, g))
+            elif pos and pos[-1] == 'vectorisnotNone':
+                arms.setdefault('vector', []).append((n, g))
+            elif pos and pos[-1] == f'{D}isnotNone':
+                arms.setdefault('domain', []).append((n, g))
+    ctx.anchor(all(len(arms.get(k, [])) == 1 for k in
+                   ('distance', 'vector', 'domain')),
+               'the three definitions of the survey domain')
+    n, g = arms['distance'][0]
+    c, d0, d1 = sp.symbols('c d0 d1', real=True)
+    ok = f'{D}isNone' in g
+    got = None
+    if ok:
+        try:
+            try:
+                got = _vec(n.value, {cen: c, DI: [d0, d1]})
+            except _NoVec:
+                got = _vec(au.value_of(n.value, fn), {cen: c, DI: [d0, d1]})
+        except _NoVec as e:
+            got = f'not evaluated ({e})'
+        ok = isinstance(got, list) and len(got) == 2 and \
+            sp.simplify(got[0] - (c - sp.Abs(d0))) == 0 and \
+            sp.simplify(got[1] - (c + sp.Abs(d1))) == 0
+    ctx.check('C16.G9.survey_domain', 'survey domain from distance = [centre '
+              '- |d0|, centre + |d1|]', ok, 'the survey domain derived from '
+              f'`distance` is {got} and not [centre - |distance[0]|, centre '
+              '+ |distance[1]|] for distances of either sign, or it is not '
+              'only used when no domain is given: the mesh covers another '
+              'region than the requested one', ctx.where(mod, n))
+    n, g = arms['vector'][0]
+    okv = f'{D}isNone' in g and f'{DI}isNone' in g
+    txt = ast.unparse(n.value).replace(' ', '')
+    lo = ('vector.min()', 'np.min(vector)', 'min(vector)', 'vector[0]',
+          'np.amin(vector)')
+    hi = ('vector.max()', 'np.max(vector)', 'max(vector)', 'vector[-1]',
+          'np.amax(vector)')
+    okv = okv and any(f'[{a},{b}]' in txt for a in lo for b in hi)
+    ctx.check('C16.G9.survey_domain', 'survey domain from vector = [min, '
+              'max] of the vector', okv, 'without domain and distance the '
+              'survey domain is not [vector.min(), vector.max()] '
+              '(or the vector takes precedence over domain / distance): '
+              'nodes of the provided vector fall outside the survey domain '
+              'and are cut, or the requested domain is ignored', ctx.where(mod, n))
+    n, g = arms['domain'][0]
+    txt = ast.unparse(n.value).replace(' ', '')
+    okd = txt.startswith(('np.array(' + D, 'np.asarray(' + D,
+                          'np.asarray_chkfinite(' + D)) and (
+        'dtype=np.float64' in txt or 'dtype=float' in txt
+        or "dtype='float" in txt or 'dtype=np.float_' in txt)
+    ctx.check('C16.G9.survey_domain', 'a given domain is used as it is (as '
+              'float array)', okd, 'a provided domain is not taken over '
+              'unchanged as a float array (an integer array truncates the '
+              'sea-surface expansion)', ctx.where(mod, n))
+
+
+def _iter_binding(call_node, name, fn):
+    """The iterable a name is bound by in an enclosing for / comprehension
+    of call_node (text; a name bound once is resolved, list()/tuple() around
+    it dropped), or None."""
+    def txt(it):
+        for _ in range(3):
+            if isinstance(it, ast.Name):
+                v = au.value_of(it, fn)
+                if v is it:
+                    break
+                it = v
+            elif isinstance(it, ast.Call) and ast.unparse(it.func) in (
+                    'list', 'tuple') and len(it.args) == 1:
+                it = it.args[0]
+            else:
+                break
+        return ast.unparse(it).replace(' ', '')
+    for a in au.ancestors(call_node, fn):
+        if isinstance(a, (ast.ListComp, ast.GeneratorExp, ast.SetComp)):
+            for gen in a.generators:
+                if any(isinstance(t, ast.Name) and t.id == name
+                       for t in ast.walk(gen.target)):
+                    return txt(gen.iter), gen.target
+        if isinstance(a, ast.For):
+            if any(isinstance(t, ast.Name) and t.id == name
+                   for t in ast.walk(a.target)):
+                return txt(a.iter), a.target
+    return None, None
+
+
+def rule_estimate(ctx, mod):
+    """estimate_gridding_opts: the default survey domain contains every
+    source and every receiver FOR every source (relative receivers), plus
+    10 %; a given distance is sign-agnostic."""
+    fn = mod.func('estimate_gridding_opts')
+    where = ctx.where(mod, fn)
+    sv = au.params(fn)[2]
+    inner = [n for n in ast.walk(fn) if isinstance(n, ast.FunctionDef)
+             and n is not fn]
+    calls = [n for n in ast.walk(fn) if isinstance(n, ast.Call) and
+             isinstance(n.func, ast.Attribute) and
+             n.func.attr == 'center_abs']
+    ctx.anchor(len(calls) >= 1, 'receiver positions (center_abs) in '
+               'estimate_gridding_opts')
+    for cnode in calls:
+        host = au.enclosing(cnode, (ast.FunctionDef,)) or fn
+        ok = len(cnode.args) == 1 and isinstance(cnode.args[0], ast.Name) \
+            and isinstance(cnode.func.value, ast.Name)
+        why = 'is not called as receiver.center_abs(source)'
+        if ok:
+            sit, stgt = _iter_binding(cnode, cnode.args[0].id, host)
+            rit, rtgt = _iter_binding(cnode, cnode.func.value.id, host)
+            src_ok = sit in (f'{sv}.sources.values()',) and isinstance(
+                stgt, ast.Name)
+            if sit is None:
+                # a name bound once to the iterable and looped over
+                pass
+            rec_ok = rit in (f'{sv}.receivers.values()',) and isinstance(
+                rtgt, ast.Name)
+            ok = src_ok and rec_ok
+            why = (f'the source `{cnode.args[0].id}` ranges over '
+                   f'{sit or "no loop at all"} and the receiver over '
+                   f'{rit or "no loop at all"}')
+        ctx.check('C16.G9.survey_default', 'default domain: every receiver '
+                  'for EVERY source', ok, 'the receiver positions the '
+                  f'default survey domain is made of: {why}; expected every '
+                  f'receiver of {sv}.receivers for every source of '
+                  f'{sv}.sources (relative receivers move with the source): '
+                  'the domain, and the mesh built from it, need not contain '
+                  'all receivers', ctx.where(mod, cnode))
+    # sources' centres and the 10 % rim
+    host = au.enclosing(calls[0], (ast.FunctionDef,)) or fn
+    rim = find('_d_ = [min(_i_) - _f_ / 10, max(_i_) + _f_ / 10]', host)
+    okr = len(rim) == 1
+    if okr:
+        I_, F_ = rim[0][1]['_i_'], rim[0][1]['_f_']
+        okr = has(f'{F_} = np.diff([min({I_}), max({I_})])[0]', host) or (
+            len(find(f'_x_ = [min({I_}), max({I_})]', host)) >= 1 and any(
+                has(f'{F_} = np.diff({m[1]["_x_"]})[0]', host)
+                for m in find(f'_x_ = [min({I_}), max({I_})]', host)))
+        srcs = [n for n in ast.walk(host) if isinstance(n, ast.Attribute)
+                and n.attr == 'center' and isinstance(n.value, ast.Name) and
+                _iter_binding(n, n.value.id, host)[0] ==
+                f'{sv}.sources.values()']
+        okr = okr and len(srcs) >= 1
+    ctx.check('C16.G9.survey_default', 'default domain = [min, max] of all '
+              'positions -/+ 10 %', okr, 'the default survey domain is not '
+              'the range of all source centres and receiver positions '
+              'widened by a tenth of it on both sides', ctx.where(mod, host))
+    # distance sign-agnostic
+    dd = [n for n in ast.walk(host) if isinstance(n, ast.Assign) and
+          'distance[' in ast.unparse(n.value)]
+    okd = len(dd) == 1
+    if okd:
+        a, b = sp.symbols('a b', real=True)
+
+        class _D(dict):
+            pass
+        try:
+            txt = ast.unparse(dd[0].value)
+            val = ast.parse(txt.replace('distance[i]', 'dist'),
+                            mode='eval').body
+            got = _vec(val, {'dist': [a, b]})
+            okd = not isinstance(got, list) and sp.simplify(
+                got - sp.Abs(a) - sp.Abs(b)) == 0
+        except (_NoVec, SyntaxError):
+            okd = False
+    ctx.check('C16.G9.survey_default', 'extent of a given distance = |d0| + '
+              '|d1|', okd, 'the extent derived from a given `distance` is '
+              'not |distance[0]| + |distance[1]| (distances are '
+              'sign-agnostic)', ctx.where(mod, dd[0] if dd else host))
+
+
 def run(ctx):
     ctx.explanation = (
         '_stretch is interpreted abstractly over array LENGTHS and prefix '
@@ -1107,6 +1375,8 @@ def run(ctx):
     rule_stretch(ctx, mod)
     fn, D, CD = rule_search(ctx, mod)
     rule_domain(ctx, mod, fn, D, CD)
+    rule_survey_domain(ctx, mod, fn, D)
+    rule_estimate(ctx, mod)
     rule_seasurface(ctx, mod)
     rule_routing(ctx, mod)
     rule_numbers(ctx, mod)
